@@ -5,3 +5,4 @@ open GoMail.Props.C11
 #print axioms cached_boundary_reused
 #print axioms state_is_fixpoint
 #print axioms second_render_equals_first
+#print axioms nested_layers_never_share_the_user_boundary
